@@ -149,5 +149,78 @@ def feedBlockFinal (p : CParams) (h : Hash) (t : Nat) : Bytes → List Bytes →
       | none => none
       | some cs' => some (cs ++ cs')
 
+/-! ### cut positions computed in the adapter loop itself (low-entropy fast paths)
+
+`gclmulchunker.__call__` takes every cut position from `next_cut(buffer, final)` — a function of the CURRENT buffer.  A loop that
+also computes positions in Python from what it emitted earlier ("the run of identical data goes on: same data, same cut") makes
+a cut depend on the history before the boundary.  `PyRule` is such a rule: consulted before `next_cut`, it sees the chunk
+emitted last, the buffer and the finality; `none` = "ask `next_cut`".  `chunkAllH` is the adapter loop with a rule;
+`adapterRule` is the rule of the code that exists, read from the extracted facts `Gen.adapterCutsNotFromNextCut` /
+`Gen.adapterNextCutOnCurrentBuffer` (tools/sections/11_cutsource.py): no rule iff every value that reaches a slice bound of the
+buffer is the result of `next_cut` on that buffer.  `repeatForced` is NOT the adapter: the fast path excluded by those facts,
+kept for the negation witness in `Properties/C11.lean`. -/
+
+/-- a cut rule evaluated in the Python loop before `next_cut`: previous chunk (if any), buffer, finality ↦ cut (`none` = no opinion) -/
+abbrev PyRule := Option Bytes → Bytes → Bool → Option Nat
+
+def noPyRule : PyRule := fun _ _ _ => none
+
+/-- the cut position the loop uses -/
+def cutWith (p : CParams) (h : Hash) (rule : PyRule) (prev : Option Bytes) (buf : Bytes) (final : Bool) : Option Nat :=
+  match rule prev buf final with
+  | some pos => some pos
+  | none => nextCut p h buf final
+
+/-- the chunk emitted last after a drain that produced `cs` -/
+def lastChunk (prev : Option Bytes) (cs : List Bytes) : Option Bytes :=
+  match cs.getLast? with
+  | some c => some c
+  | none => prev
+
+/-- `drain` with a rule that sees the previously emitted chunk -/
+def drainH (p : CParams) (h : Hash) (rule : PyRule) (final : Bool) : Nat → Option Bytes → Bytes → Option (List Bytes × Bytes)
+  | 0, _, buf => some ([], buf)
+  | fuel + 1, prev, buf =>
+    match cutWith p h rule prev buf final with
+    | none => none
+    | some pos =>
+      if pos = 0 then some ([], buf)
+      else
+        match drainH p h rule final fuel (some (buf.take pos)) (buf.drop pos) with
+        | none => none
+        | some (cs, rest) => some (buf.take pos :: cs, rest)
+
+/-- `feed` with a rule; the memory of the last chunk survives from one input block to the next -/
+def feedH (p : CParams) (h : Hash) (rule : PyRule) : Option Bytes → Bytes → List Bytes → Option (List Bytes)
+  | _, _, [] => some []
+  | prev, buf, [pc] =>
+    (drainH p h rule true (drainFuel (buf ++ pc)) prev (buf ++ pc)).map (·.1)
+  | prev, buf, pc :: q :: ps =>
+    match drainH p h rule false (drainFuel (buf ++ pc)) prev (buf ++ pc) with
+    | none => none
+    | some (cs, rest) =>
+      match feedH p h rule (lastChunk prev cs) rest (q :: ps) with
+      | none => none
+      | some cs' => some (cs ++ cs')
+
+/-- the adapter loop with a Python-side cut rule -/
+def chunkAllH (p : CParams) (h : Hash) (rule : PyRule) (pieces : List Bytes) : Option (List Bytes) :=
+  feedH p h rule none [] pieces
+
+/-- the Python-side cut rule of the code that exists: none, iff the extractor finds that every value reaching a slice bound of
+the buffer is `next_cut(<that buffer>, …)`; otherwise an arbitrary (unknown) rule -/
+def adapterRule (unknown : PyRule) : PyRule :=
+  if Gen.adapterCutsNotFromNextCut.isEmpty && Gen.adapterNextCutOnCurrentBuffer then noPyRule else unknown
+
+/-- NOT the adapter — the "run of identical data" fast path: when the chunk emitted last was a forced cut (`ceil4 min` bytes),
+the buffer is large enough to be scanned and starts with the very same bytes again, cut at the forced length again without
+asking `next_cut` -/
+def repeatForced (p : CParams) : PyRule := fun prev buf final =>
+  match prev with
+  | none => none
+  | some c =>
+    if c.length = ceil4 p.min ∧ (if final then 2 * p.max else ceil4 p.max) ≤ buf.length ∧ c.isPrefixOf buf then some (ceil4 p.min)
+    else none
+
 end Sync
 end Replicat
